@@ -1,5 +1,6 @@
-/- C08 audit (unparser side): axioms and statements of every property theorem -/
 import CalmVerif.Props.C08
+import CalmVerif.Props.C08end
+/- C08 audit (unparser side): axioms and statements of every property theorem -/
 #print axioms CalmVerif.Props.C08.space_fragments_unpositioned
 #check @CalmVerif.Props.C08.space_fragments_unpositioned
 #print axioms CalmVerif.Props.C08.resolve_is_hook_or_absent
@@ -12,3 +13,11 @@ import CalmVerif.Props.C08
 #check @CalmVerif.Props.C08.fragment_source_is_stack_top
 #print axioms CalmVerif.Props.C08.fragments_of_all_rule_sets
 #check @CalmVerif.Props.C08.fragments_of_all_rule_sets
+#print axioms CalmVerif.Props.C08end.attr_names_ok
+#check @CalmVerif.Props.C08end.attr_names_ok
+#print axioms CalmVerif.Props.C08end.parsed_tree_designates
+#check @CalmVerif.Props.C08end.parsed_tree_designates
+#print axioms CalmVerif.Props.C08end.printed_positions_point_at_source_tokens
+#check @CalmVerif.Props.C08end.printed_positions_point_at_source_tokens
+#print axioms CalmVerif.Props.C08end.sourcemap_segments_point_at_source_tokens
+#check @CalmVerif.Props.C08end.sourcemap_segments_point_at_source_tokens
